@@ -27,6 +27,8 @@ WRAPS_COMMON = [
     "__cxa_guard_acquire", "__cxa_guard_release", "__cxa_guard_abort",
     "getenv", "fopen", "__assert_fail",
 ]
+# clang builds: the library's thread_locals go through __emutls_get_address, which the scheduler serves per task
+EMUTLS_WRAPS = ["__emutls_get_address", "__cxa_thread_atexit"]
 UBSAN_HANDLERS = [
     "add_overflow", "sub_overflow", "mul_overflow", "negate_overflow", "divrem_overflow",
     "shift_out_of_bounds", "out_of_bounds", "load_invalid_value", "type_mismatch_v1",
@@ -44,19 +46,19 @@ HARNESS_UBSAN = {"ops.cc"}
 VARIANTS = {
     "asan": dict(
         cxx="clang++",
-        lib=["-O1", "-g", "-fno-omit-frame-pointer", "-fsanitize=address,undefined", "-fno-sanitize=vptr,function"],
+        lib=["-O1", "-g", "-fno-omit-frame-pointer", "-fsanitize=address,undefined", "-fno-sanitize=vptr,function", "-femulated-tls"],
         har=["-O1", "-g", "-fno-omit-frame-pointer", "-fsanitize=address", "-DSIM_ASAN"],
         har_ub=["-fsanitize=address,undefined", "-fno-sanitize=vptr,function"],
         link=["-fsanitize=address,undefined"],
-        wraps=WRAPS_COMMON + ["__ubsan_handle_" + h for h in UBSAN_HANDLERS],
+        wraps=WRAPS_COMMON + EMUTLS_WRAPS + ["__ubsan_handle_" + h for h in UBSAN_HANDLERS],
     ),
     "tsan": dict(
         cxx="clang++",
-        lib=["-O1", "-g", "-fno-omit-frame-pointer", "-fsanitize=thread"],
+        lib=["-O1", "-g", "-fno-omit-frame-pointer", "-fsanitize=thread", "-femulated-tls"],
         har=["-O1", "-g", "-fno-omit-frame-pointer", "-DSIM_TSAN"],
         har_ub=[],
         link=["-fsanitize=thread"],
-        wraps=WRAPS_COMMON + ["__tsan_atomic%d_%s" % (n, op) for n in (8, 16, 32, 64) for op in TSAN_ATOMICS],
+        wraps=WRAPS_COMMON + EMUTLS_WRAPS + ["__tsan_atomic%d_%s" % (n, op) for n in (8, 16, 32, 64) for op in TSAN_ATOMICS],
     ),
     "gzero": dict(
         cxx="g++",
@@ -64,7 +66,7 @@ VARIANTS = {
         har=["-O1", "-g", "-DSIM_GZERO"],
         har_ub=[],
         link=[],
-        wraps=WRAPS_COMMON,
+        wraps=WRAPS_COMMON + EMUTLS_WRAPS,   # g++ has no -femulated-tls: thread_locals stay shared by all tasks in these builds
     ),
     "gpat": dict(
         cxx="g++",
@@ -72,7 +74,20 @@ VARIANTS = {
         har=["-O1", "-g", "-DSIM_GPAT"],
         har_ub=[],
         link=[],
-        wraps=WRAPS_COMMON,
+        wraps=WRAPS_COMMON + EMUTLS_WRAPS,   # g++ has no -femulated-tls: thread_locals stay shared by all tasks in these builds
+    ),
+}
+
+
+# Built on demand only (tools/coverage.py): line/branch coverage of the library under the simulated workloads.
+EXTRA_VARIANTS = {
+    "cov": dict(
+        cxx="clang++",
+        lib=["-O0", "-g", "-fprofile-instr-generate", "-fcoverage-mapping", "-femulated-tls"],
+        har=["-O1", "-g", "-DSIM_COV"],
+        har_ub=[],
+        link=["-fprofile-instr-generate"],
+        wraps=WRAPS_COMMON + EMUTLS_WRAPS,
     ),
 }
 
@@ -99,7 +114,7 @@ def _hash_files(paths):
 def build(variant, quiet=True, harness=None):
     """Returns path of the binary; raises RuntimeError with compiler output on failure."""
     repo = repo_root()
-    v = VARIANTS[variant]
+    v = VARIANTS.get(variant) or EXTRA_VARIANTS[variant]
     objdir = os.path.join(BUILD, "obj")
     outdir = os.path.join(BUILD, variant)
     os.makedirs(objdir, exist_ok=True)
